@@ -32,6 +32,9 @@ How the clauses map to theorems
   every component) → inside `C12_document`, `C12_border_refs`, `C12_border_refs_emitters`
 * fonts                                                                  → `C12_fonts`
 * no context (direct use outside an encode): master index into the full table → `C12_full_table`
+* the table and the indices use ONE numbering: in the full table only the master index resolves
+  (`C12_full_table_only_master`); dense positions read against the full table name other colours
+  (`C12_mixed_numbering_wrong`, with the oracle's verdict on it)
 -/
 namespace Props.C12
 open Generated Model.Color Proofs.Color Proofs.ColorTable
@@ -327,6 +330,46 @@ theorem C12_full_table (c : String) (row : ColorRow) (hs : significant c = true)
     have : row.idx - 1 = k := by omega
     rw [this, List.getElem?_eq_getElem hk, hget]
   · simp [requestedRgb, hl, seenRgb_eq row hmem, rowRgb]
+
+/-! ## one numbering for the table and for the indices -/
+
+/-- In the full 657-entry table the ONLY index that resolves to a colour is that colour's master index: an index `i`
+whose entry is `c`'s own row is `row.idx`.  So an index computed in another numbering — the position of `c` in the
+dense table of the colours a document uses — resolves in the full table only where the two numberings happen to
+coincide. -/
+theorem C12_full_table_only_master (c : String) (i : Nat)
+    (h : Resolves colorTable (fullTableRows colorTable) c i) :
+    ∃ row, lookupRow colorTable c = some row ∧ i = row.idx := by
+  obtain ⟨row, hget, _, hl, _, _⟩ := h.entry
+  refine ⟨row, hl, ?_⟩
+  rw [fullTableRows_eq] at hget
+  obtain ⟨hk, hrow⟩ := List.getElem?_eq_some_iff.mp hget
+  have hidx : (colorTable.map (·.idx))[i - 1]'(by simpa using hk) = 1 + (i - 1) := by
+    have := idx_range
+    simp only [this, List.getElem_range']
+    omega
+  rw [List.getElem_map, hrow] at hidx
+  have := h.pos
+  omega
+
+/-- **The table and the indices must use the same numbering.**  Both numberings are consistent by themselves — the
+dense table with positions in the dense table (`C12_index_resolves`), the full table with master indices
+(`C12_full_table`) — but they must not be mixed: a document whose only colour is red prints index 1 (red's position in
+its dense table); entry 1 of the full table is white, index 1 does not resolve to red there, and the decidable oracle
+the harness evaluates on real output (`useOk`: the entry's RGB is the requested colour's) rejects the reference.  (The
+class of a seeded change that wrote the full table under a page option while the emitters kept the dense indices.) -/
+theorem C12_mixed_numbering_wrong :
+    utilsColorIndex colorTable (some ["red"]) "red" none = 1 ∧
+    (fullTableRows colorTable)[0]?.map (·.name) = some "white" ∧
+    ¬ Resolves colorTable (fullTableRows colorTable) "red" 1 ∧
+    useOk colorTable (none :: (fullTableRows colorTable).map (fun r => some (rowRgb r))) ⟨1, "red"⟩ = false := by
+  refine ⟨by decide +kernel, by rw [fullTableRows_eq]; decide +kernel, ?_, by rw [fullTableRows_eq]; decide +kernel⟩
+  intro h
+  obtain ⟨row, hl, hi⟩ := C12_full_table_only_master "red" 1 h
+  have : (lookupRow colorTable "red").map (·.idx) = some 552 := by decide +kernel
+  rw [hl] at this
+  simp at this
+  omega
 
 /-! ## non-vacuity -/
 
